@@ -313,6 +313,7 @@ impl UnusedVariableVisitor {
     fn process_unused_type_params(
         &mut self,
         type_param_info: &TypeParamInfo,
+        name_position_of_def: Option<&Position>,
         open_paren: &Position,
     ) {
         let params = &type_param_info.params;
@@ -347,27 +348,19 @@ impl UnusedVariableVisitor {
             let name_position = tp.position.clone();
 
             let removal_position = if all_unused {
-                // Remove entire <...> section. The `<` is right before the first
-                // type param, and `>` is right after the last one (before open paren).
-                let first_tp = &params[0].0;
-                if first_tp.position.column == 0 {
-                    // The `<` is on a previous line, so we don't
-                    // know where it is.
-                    None
-                } else {
-                    Some(Position {
-                        // Start at `<` which is one char before the first type param
-                        start_offset: first_tp.position.start_offset - 1,
-                        // End at `>` which is right before the open paren
-                        end_offset: open_paren.start_offset,
-                        line_number: first_tp.position.line_number,
-                        end_line_number: open_paren.line_number,
-                        column: first_tp.position.column - 1,
-                        end_column: open_paren.column,
-                        path: Rc::clone(&tp.position.path),
-                        vfs_path: tp.position.vfs_path.clone(),
-                    })
-                }
+                // Remove entire <...> section: everything between the
+                // name of the definition and the open paren. The `<`
+                // need not be directly before the first type param.
+                name_position_of_def.map(|def_name_pos| Position {
+                    start_offset: def_name_pos.end_offset,
+                    end_offset: open_paren.start_offset,
+                    line_number: def_name_pos.end_line_number,
+                    end_line_number: open_paren.line_number,
+                    column: def_name_pos.end_column,
+                    end_column: open_paren.column,
+                    path: Rc::clone(&tp.position.path),
+                    vfs_path: tp.position.vfs_path.clone(),
+                })
             } else if idx == 0 {
                 // First param but not all unused: remove "T, " (param and trailing comma+space)
                 let next_tp = &params[idx + 1].0;
@@ -532,7 +525,11 @@ impl Visitor for UnusedVariableVisitor {
         self.pop_scope();
 
         let type_param_info = self.type_param_info.pop().unwrap();
-        self.process_unused_type_params(&type_param_info, &fun_info.params.open_paren);
+        self.process_unused_type_params(
+            &type_param_info,
+            fun_info.name_sym.as_ref().map(|sym| &sym.position),
+            &fun_info.params.open_paren,
+        );
     }
 
     fn visit_expr_variable(&mut self, var: &Symbol) {
